@@ -99,4 +99,26 @@ PROPS = {
          "thorough": {"_runs": 20000}},
         "Seeded exploration; userinfo 200 / active:true imply the token is live in the reference model (and the caller authenticated and in the audience); inactive answers are exactly {active:false}; owner revocation and logout kill the tokens; foreign revocation is refused; garbage revocation answers 200.",
         "DESIGN.md section 4 C08"),
+    "C15": flow(
+        "W-flows",
+        "deterministic simulation: seeded histories of token-exchange requests with live, expired, revoked, foreign, type-confused and garbage subject/actor tokens under a changing storage policy; success checked against the liveness model and the storage journal",
+        "one evaluation = one seeded world (router, token types, policy) running 40-80 actor steps: obtain tokens, exchange (subject kind x actor kind x declared type x requested type x scopes x caller x presentation), "
+        "revoke, logout, clock jumps, policy changes (default type, veto, impersonation, dropped scopes). non-trivial = at least one exchange succeeded; distinct = distinct step history",
+        {"runs": 40, "wall": 90}, {"runs": 8000, "wall": 1200},
+        {"quick": {"_runs": 400, "exchange-success": 300}, "thorough": {"_runs": 20000}},
+        "Seeded exploration; every 2xx exchange implies an authenticated, registered client, live subject/actor tokens of the declared type, no veto, a non-empty token of the declared kind that is live at the provider and carries the subject, scopes and actor the journal shows the policy decided.",
+        "DESIGN.md section 4 C15"),
+    "C09": dict(flow(
+        "W-fault",
+        "deterministic simulation with fault enumeration: a fixed catalogue of malformed requests, crafted tokens, hostile provider answers and JSON documents is run completely against the real provider (both routers), the client helpers and the decoders in every seeded world",
+        "one evaluation = one seeded world (router, algorithm, token types, capabilities, user-code configuration incl. degenerate ones) x the complete catalogue: ~3150 server requests (42 token payloads x 2 overlays x 12 token sinks, broken token shapes, "
+        "10 malformed Basic headers x 10 grant types x 4 endpoints, 10 malformed bodies, 14 routes x 7 methods x 10 queries, 150 seeded mutations), ~1730 faulty-peer answers to 18 client helpers, ~1750 decoder/verifier inputs. "
+        "distinct non-trivial = distinct (router, case) executed plus distinct world configurations",
+        {"runs": 2, "wall": 120}, {"runs": 200, "wall": 1500},
+        {"quick": {"_runs": 32, "server-cases": 90000, "client-cases": 50000, "decoder-cases": 50000, "server-error-answers": 50000, "client-errors-returned": 30000},
+         "thorough": {"_runs": 2000}},
+        "Fault enumeration over a stated catalogue (complete per world) plus seeded mutation: no handler, helper, verifier or decoder may panic; a recorder counts response headers and the storage journal shows whether a handler went on after answering with an error.",
+        "DESIGN.md section 4 C09", level="fault_enumeration",
+        level_note="Trusted: the catalogue is the input space (it is large but not all inputs); simnet instead of net/http server, so connection-level behaviour is out of scope."),
+        ),
 }
